@@ -154,6 +154,14 @@ class Result(object):
         self.truths = []
         self.super_calls = []  # (node, kwargs Kw snapshot, funckey)
         self.maskstores = []  # (line, target Arr, value, node, funckey)
+        self.layer_reads = []  # (node, sel, sorted?, funckey)
+        self.layer_reduces = []  # (node, sel of the reduced value, method, funckey)
+        self.wheres = []  # (node, cond, a, b, funckey)
+        self.zips = []  # (node, zipped values, funckey)
+        self.weight_pairs = []  # (node, array tokens, scalar sym, funckey)
+        self.sorteds = []  # (node, argument value, funckey)
+        self.reduces = []  # (node, callee description, seq, init, funckey)
+        self.binops = []  # (node, op name, left D, right D, funckey) for array-array operators
         self.unsupported = None
 
 
@@ -457,9 +465,7 @@ class Interp(object):
             if k == "__dead__":
                 continue
             vals = [e[k] for e in envs if k in e]
-            if len(vals) < len(envs):
-                out[k] = Other("maybe-undefined")
-                continue
+            # a name bound on some paths only keeps the value of the paths that bind it (reading it elsewhere is a NameError)
             v = vals[0]
             for w in vals[1:]:
                 v = self.join(v, w)
@@ -820,6 +826,8 @@ class ArrayInterp(Interp):
             a, b = self.ev(e.left, fr), self.ev(e.right, fr)
             if isinstance(e.op, (ast.Div, ast.FloorDiv, ast.Mod)) and (isinstance(a, Arr) or isinstance(b, Arr)):
                 self.res.divisions.append((e.lineno, a, b, e, self.fkey(fr)))
+            if isinstance(a, Arr) and isinstance(b, Arr):
+                self.res.binops.append((e, type(e.op).__name__, a.D, b.D, self.fkey(fr)))
             return self.binop(a, b, e.op, e, fr)
         if isinstance(e, ast.UnaryOp):
             v = self.ev(e.operand, fr)
@@ -1111,6 +1119,7 @@ class ArrayInterp(Interp):
                 sel = ("Top", -idx.const) if idx.const < 0 else ("Bottom", idx.const + 1)
                 if not base.sorted0:
                     sel = ("Layer", idx.const)
+                self.res.layer_reads.append((e, sel, base.sorted0, self.fkey(fr)))
                 return replace(base, shape="same" if base.shape == "stacked" else "unknown", sel=sel, alias=base.alias)
             if is_slice:
                 lo, hi = idx.info
@@ -1128,6 +1137,7 @@ class ArrayInterp(Interp):
                     sel = ("?", _src(e.slice))
                 if not base.sorted0:
                     sel = ("UnsortedSlice", _src(e.slice))
+                self.res.layer_reads.append((e, sel, base.sorted0, self.fkey(fr)))
                 return replace(base, sel=sel, alias=base.alias)
             if isinstance(idx, Arr) and idx.isbool:
                 return replace(base, shape="flat", alias=self.S(e), D=base.D | idx.D)
@@ -1189,6 +1199,8 @@ class ArrayInterp(Interp):
         self.unsupported("operator on %r and %r" % (a, b), node, fr)
 
     def binop_arr(self, a, b, op, node, fr, inplace=False, swapped=False):
+        if isinstance(op, (ast.Mult, ast.Div)) and isinstance(b, Scal) and b.sym and not isinstance(node, ast.Compare):
+            self.res.weight_pairs.append((node, a.D, b.sym, self.fkey(fr)))
         kinds = [a.kind] + ([b.kind] if isinstance(b, Arr) else [])
         if inplace:
             kind = a.kind
@@ -1566,6 +1578,7 @@ class ArrayInterp(Interp):
 
     def axis_reduce(self, base, ax, e, fr, what):
         ax0 = isinstance(ax, Scal) and ax.const == 0
+        self.res.layer_reduces.append((e, base.sel, what, self.fkey(fr)))
         if base.shape == "stacked" and ax0:
             return replace(base, shape="same", alias=self.S(e), dt=F_ if what in ("mean", "std", "var", "median") else base.dt, rng=(None, None), sorted0=False, maskof=E, dataof=E)
         if base.shape == "rankdep" and ax0:
@@ -1708,6 +1721,7 @@ class ArrayInterp(Interp):
                     return Other("index", a0)
                 return Other("opaque")
             arrs = [x for x in A if isinstance(x, Arr)]
+            self.res.wheres.append((e, A[0], A[1] if len(A) > 1 else None, A[2] if len(A) > 2 else None, self.fkey(fr)))
             if not arrs:
                 return Scal()
             r = arrs[0]
@@ -1840,6 +1854,7 @@ class ArrayInterp(Interp):
         if qn == "functools.reduce":
             return self.call_reduce(e, A, fr)
         if short == "sorted":
+            self.res.sorteds.append((e, a0, self.fkey(fr)))
             if isinstance(a0, Lst) and a0.what == "zip":
                 D = E
                 Pg = E
@@ -1852,6 +1867,7 @@ class ArrayInterp(Interp):
                 return replace(a0, sorted_=True)
             return Lst("opaque")
         if short == "zip":
+            self.res.zips.append((e, tuple(A), self.fkey(fr)))
             return Lst("zip", srcs=tuple(getattr(x, "srcs", ()) for x in A), zipped=tuple(A))
         if short == "enumerate":
             return Lst("enum", elem=a0)
@@ -1958,6 +1974,7 @@ class ArrayInterp(Interp):
                 return Scal()
             self.unsupported("reduce over %r" % (seq,), e, fr)
         el = self.part_elem(seq)
+        self.res.reduces.append((e, fn, seq, init, self.fkey(fr)))
         if isinstance(fn, Other) and fn.tag == "lambda":
             step = lambda x, y: self.apply_lambda(fn.info, [x, y], fr)  # noqa: E731
         elif isinstance(fn, Other) and fn.tag == "global" and isinstance(fn.info, str):
